@@ -21,12 +21,10 @@ pub(crate) fn read_ref_alt(src: &mut &[u8], len: usize) -> io::Result<(String, A
         }
     }
 
-    let (raw_reference_bases, raw_alternate_bases) = alleles.split_at(1);
-
-    let reference_bases = raw_reference_bases
-        .first()
+    let (reference_bases, raw_alternate_bases) = alleles
+        .split_first()
         .ok_or_else(|| io::Error::new(io::ErrorKind::InvalidInput, "missing reference bases"))
-        .map(|&s| s.into())?;
+        .map(|(&s, rest)| (s.into(), rest))?;
 
     let alternate_bases = raw_alternate_bases
         .iter()
